@@ -15,6 +15,22 @@ def fuzz(pkg, run, t="45s"):
     return {"pkg": pkg, "run": run, "kind": "fuzz", "tiers": ("thorough",), "fuzztime": {"thorough": t}}
 
 CHECKS = {
+    "C13": {
+        "level": "exploration",
+        "assumptions": ["all limiter time goes through the frozen clock", "idle time for full refill is computed with tau rounded up (never shorter than the statement's burst*period/average)"],
+        "jobs": [
+            rapid("props/c13", "^TestC13_(BucketSet|HTTPLimiter)$", 4000, 40000, shards_t=8),
+        ],
+    },
+    "C03": {
+        "level": "exploration",
+        "assumptions": ["all limiter time goes through the frozen clock", "the bound uses tau=floor(period/average), the reading that yields the larger bound", "domain restricted as the statement says: period >= 1s, burst <= 5*average, sources <= capacity"],
+        "jobs": [
+            {"pkg": "props/c03", "run": "^TestC03_Regression$", "kind": "plain"},
+            rapid("props/c03", "^TestC03_(LimiterBound|BucketSetBound)$", 1500, 12000, shards_t=10),
+            rapid("props/c03", "^TestC03_ConcurrentFirstContact$", 60, 400, shards_t=4),
+        ],
+    },
     "C02": {
         "level": "exploration",
         "assumptions": ["server identity is (scheme, host, path) as the property's anchors state", "racing administration is sampled on real goroutines (sound consequence only)"],
@@ -52,6 +68,16 @@ CHECKS = {
 
 # Texts for MANIFEST.json (level text, trusted base, technique) per claimed property.
 MANIFEST_TEXT = {
+    "C13": {
+        "level": "Generated operation programs (advance, consume, same-instant floods, retry after exactly the advertised delay, idle burst*tau then consume, over-burst requests) on the public TokenBucketSet and on the HTTP limiter, for generated 1-3-rate sets under a frozen clock. Oracles: a metamorphic relation (deleting same-instant rejected requests changes no remaining decision or delay; two instances replayed along the same frozen time-line), sufficiency of the advertised delay, full-burst regain after idle, outright refusal of over-burst amounts. Exploration of bounded programs (<= 25 operations, floods up to 40).",
+        "note": "Trusts the frozen clock; X-Retry-In is parsed with time.ParseDuration (Duration.String round-trips exactly).",
+        "technique": "property-based testing (rapid): metamorphic relation between two limiter instances under one frozen clock + bounded-response invariants",
+    },
+    "C03": {
+        "level": "Generated arrival histories (segment programs of up to ~600 requests: bursts, sustained traffic over several entry lifetimes, idle gaps up to >10 periods, amounts 1-3 and over-burst) against generated single- and multi-rate sets under a frozen clock; the statement's bound is checked in exact integer arithmetic over EVERY pair of admitted requests of every source and rate, through the HTTP limiter and directly on the bucket set; plus concurrent first contact of one source on real goroutines. Exploration of bounded histories.",
+        "note": "Trusts the frozen clock and the O(n^2) bound checker; histories are bounded at ~600 requests per case.",
+        "technique": "property-based testing (rapid) with generated time-lines under a frozen clock; all-intervals bound invariant as oracle",
+    },
     "C02": {
         "level": "Model-based state machine: generated add/update/remove/request/rotation histories (<=30 steps) over a URL alphabet built for identity collisions, run against RoundRobin and Rebalancer(RoundRobin), with and without sticky sessions and with downstream handlers that rewrite the request URL; a reference map keyed by (scheme,host,path) is compared with Servers()/ServerWeight()/selections after every step. A second generated program races administration with requests on real goroutines and checks the sound consequence (a server removed before a request started is never selected). Exploration of bounded histories; racing schedules are sampled.",
         "note": "Trusts the reference model (ordered map) and net/url parsing of the generated spellings; the rebalancer is given a never-ready meter so that configured weights stay observable.",
